@@ -12,4 +12,4 @@ one() {
   else echo "UNDECIDED   $id  $(echo "$out" | grep UNDECIDED | sed -E 's/.*property=(C[0-9]+) ([^:]+):.*/\1:\2/' | sort -u | tr '\n' ' ' | cut -c1-300)"; fi
 }
 export -f one
-ls -d refactors/*/ | grep "${1:-.}" | xargs -P 8 -I{} bash -c 'one {}' | sort -k2
+ls -d refactors/*/ | grep "${1:-.}" | xargs -P ${REFALL_P:-8} -I{} bash -c 'one {}' | sort -k2
